@@ -3,6 +3,8 @@ CONSTANTS
   Size = 3
   Triggers = {"f1", "f2"}
   Spawned = {"h1"}
+  Pickers = {}
+  Defect_PickOnlyEmpty = FALSE
   Closers = {"k1"}
   MaxFail = 1
   MaxKill = 0
